@@ -16,7 +16,7 @@ import (
 func init() { Registry["C13"] = checkC13 }
 
 func checkC13(p *core.Prog, r *core.Report) {
-	r.Explanation = "Decides a stated domain of crash sites reachable from client input (connection goroutines have no recover(), checked as a fact): (R1) in every function of server/ and protocol/ that receives a text command's argument list ([]string parameter), every index args[c], args[v+c] and re-slice args[c:] is covered on its path by a length test of that list (len(args) lower bound from ==, <, <=, != tests in either polarity; v+c forms by a test of the same v against len(args)); a guard on a different expression of v does not count; (R2) every result code has an ERROR_MSG entry; (R3) the optional pointers LockCommand.Data, LockResultCommand.Data, LockManager.currentData and Lock.data are dereferenced (field access or method call) only on paths that tested them non-nil; (R4) constant indexes into client value frames (LockCommandData.Data, origin byte frames) are covered by a length test or by the frame reader's minimum length. Sites outside the domain (indices through struct fields, data-dependent offsets, loops with stride arithmetic) are counted as outside_domain and not claimed. (R5) in the text parser and stream readers an index of the form v-c (c>0) is covered by a test v >= c on its path. (R6) in the text parser every rbuf[e] has e < bufLen and every rbuf[a:b] has b <= bufLen on its path (linear entailment over the symbolic cursor and length; loop-carried locals are outside the domain); (R7) the per-connection reply buffer: every advance of the write index provably fits and the invariant index+64 <= len(buf) is re-established at every exit (inductive, assuming it at entry); (R8) the text protocol's recycled reply object has every argument-dependent field reassigned on every path before hand-over; (R9) constant and constant-bounded loop indexes into fixed-capacity tables (slices only ever made with a constant length) stay below the capacity (field cursors: only where a path fact bounds the cursor, and not in functions whose exploration exceeds the step budget). (R10) every make() whose size derives from an integer decoded from the wire (strconv parse, multi-byte word, a field holding one; parameters not followed) is bounded by the width of the decoded word (<= 32 bits) or by a test on its path - the out-of-range panic of make, not memory exhaustion. (R11) an index into a fixed-capacity table that is decoded from a client's message (protobuf request field, wire command field) is bounded by the width of its type or by a test on its path. (R12) in the value operations every slice of the stored frame whose bound contains a length supplied by the request stays within the frame by the path's comparisons (linear entailment). (R13) the walkers of a value frame (property header, array and key-value elements; accessors in protocol/ and the engine's POP / PUSH loops) read the frame at a loop-carried cursor only under a dominating comparison of the cursor with the frame's length, and slice up to cursor + decoded length only under one that includes the decoded length. NOT decided: integer overflow, memory exhaustion by large but representable allocations, channel/close misuse, type assertions, deadlock, stack exhaustion."
+	r.Explanation = "Decides a stated domain of crash sites reachable from client input (connection goroutines have no recover(), checked as a fact): (R1) in every function of server/ and protocol/ that receives a text command's argument list ([]string parameter), every index args[c], args[v+c] and re-slice args[c:] is covered on its path by a length test of that list (len(args) lower bound from ==, <, <=, != tests in either polarity; v+c forms by a test of the same v against len(args)); a guard on a different expression of v does not count; (R2) every result code has an ERROR_MSG entry; (R3) the optional pointers LockCommand.Data, LockResultCommand.Data, LockManager.currentData and Lock.data are dereferenced (field access or method call) only on paths that tested them non-nil; (R4) constant indexes into client value frames (LockCommandData.Data, origin byte frames) are covered by a length test or by the frame reader's minimum length. Sites outside the domain (indices through struct fields, data-dependent offsets, loops with stride arithmetic) are counted as outside_domain and not claimed. (R5) in the text parser and stream readers an index of the form v-c (c>0) is covered by a test v >= c on its path. (R6) in the text parser every rbuf[e] has e < bufLen and every rbuf[a:b] has b <= bufLen on its path (linear entailment over the symbolic cursor and length; loop-carried locals are outside the domain); (R7) the per-connection reply buffer: every advance of the write index provably fits and the invariant index+64 <= len(buf) is re-established at every exit (inductive, assuming it at entry); (R8) the text protocol's recycled reply object has every argument-dependent field reassigned on every path before hand-over; (R9) constant and constant-bounded loop indexes into fixed-capacity tables (slices only ever made with a constant length) stay below the capacity (field cursors: only where a path fact bounds the cursor, and not in functions whose exploration exceeds the step budget). (R10) every make() whose size derives from an integer decoded from the wire (strconv parse, multi-byte word, a field holding one; parameters not followed) is bounded by the width of the decoded word (<= 32 bits) or by a test on its path - the out-of-range panic of make, not memory exhaustion. (R11) an index into a fixed-capacity table that is decoded from a client's message (protobuf request field, wire command field) is bounded by the width of its type or by a test on its path. (R12) in the value operations every slice of the stored frame whose bound contains a length supplied by the request stays within the frame by the path's comparisons (linear entailment). (R13) the walkers of a value frame (property header, array and key-value elements; accessors in protocol/ and the engine's POP / PUSH loops) read the frame at a loop-carried cursor only under a dominating comparison of the cursor with the frame's length, and slice up to cursor + decoded length only under one that includes the decoded length. (R14) GetValueOffset of the three value-frame types never answers a position beyond the frame. NOT decided: integer overflow, memory exhaustion by large but representable allocations, channel/close misuse, type assertions, deadlock, stack exhaustion."
 	r.Assumptions = []string{"Go type checker and go/ssa are correct for /repo", "a handler dispatched through a command registry receives the parsed command with its name at args[0] (len(args) >= 1)", "a panic in any goroutine started for a connection kills the process (no recover in Server.handle: asserted)"}
 	c13NoRecover(p, r)
 	c13R1(p, r)
@@ -31,6 +31,7 @@ func checkC13(p *core.Prog, r *core.Report) {
 	c13R10(p, r)
 	c13R12(p, r)
 	c13R13(p, r)
+	c13R14(p, r)
 }
 
 // c13NoRecover asserts the premise that makes every panic fatal.
@@ -541,6 +542,7 @@ func c13R4(p *core.Prog, r *core.Report) {
 			ctor[f] = true
 		}
 	}
+	r4Wire, _ := c13WireInts(p)
 	// (a) constructor call sites
 	for _, rel := range []string{"server", "protocol"} {
 		for _, fn := range p.FuncsIn(rel) {
@@ -570,6 +572,18 @@ func c13R4(p *core.Prog, r *core.Report) {
 					arg := core.CallArgs(x.Ins)[0]
 					org := frameOrigin(arg, 0)
 					key := siteKey(p, x.Ins)
+					// a frame assembled in a buffer made with (n + 4) bytes, n decoded from client bytes
+					if mk, ok := arg.(*ssa.MakeSlice); ok && r4Wire(mk.Len) {
+						lenC := core.Plain(x.Canon(mk.Len).S)
+						if l, four, ok := splitTop(lenC, "+"); ok && strings.TrimSpace(four) == "4" {
+							if x.St.Facts.LowerBound(strings.TrimSpace(l)) >= 2 {
+								r.Hold(rule, key, x.Pos(), "embedded frame length tested >= 2 (type and flag bytes present)")
+							} else {
+								r.Violate(rule, key, x.Pos(), "a value frame is assembled in a buffer of "+lenC+" bytes, where the length is decoded from the client's bytes and only tested positive: with length 1 the constructor reads the flag byte at index 5 of a 5-byte buffer (index out of range in the connection goroutine)", x.St.Trace)
+							}
+							return
+						}
+					}
 					if !strings.HasPrefix(org, "connection") && !strings.HasPrefix(org, "client") {
 						return // server-produced frame (own log / stored value): outside the domain
 					}
@@ -2021,4 +2035,65 @@ func accessPath(v ssa.Value) string {
 		return accessPath(t.X) + "." + core.FieldKeyOf(t.X.Type(), t.Field).Field
 	}
 	return v.Name()
+}
+
+// ---------------------------------------------------------------------------
+// R14: GetValueOffset is where a value frame's property header (whose length
+// the client writes) turns into a position in the frame; every caller slices
+// or sizes with it. It must never answer a position beyond the frame.
+func c13R14(p *core.Prog, r *core.Report) {
+	const rule = "C13/R14"
+	r.Rule(rule, "GetValueOffset of the three value-frame types returns a constant, the frame's length, or a value the path has compared <= the frame's length", 3)
+	n := 0
+	for _, name := range []string{"protocol.(*LockCommandData).GetValueOffset", "protocol.(*LockResultCommandData).GetValueOffset", "server.(*LockManagerData).GetValueOffset"} {
+		fn := mustFunc(p, r, name)
+		if fn == nil {
+			continue
+		}
+		self := fn.Params[0].Name()
+		field := "Data"
+		if strings.HasPrefix(name, "server.") {
+			field = "data"
+		}
+		frameLen := "len(" + self + "." + field + ")"
+		bad := false
+		ex := core.NewExplorer(p, core.Hooks{
+			Track: func(x *core.X, a core.Atom) bool { return strings.Contains(core.Plain(a.String()), frameLen) },
+			Exit: func(x *core.X, rets []core.Expr) {
+				if len(rets) != 1 || bad {
+					return
+				}
+				e := core.Plain(rets[0].S)
+				if _, ok := core.ParseIntStr(e); ok || e == frameLen {
+					return
+				}
+				var facts []core.Lin
+				for _, a := range x.St.Facts.All() {
+					facts = append(facts, core.AtomLin(core.Atom{L: core.Plain(a.L), Op: a.Op, R: core.Plain(a.R)})...)
+				}
+				for h := range x.St.Hist {
+					if at, ok := core.ParseAtom(core.Plain(h)); ok {
+						facts = append(facts, core.AtomLin(at)...)
+					}
+				}
+				if core.LinEntails(facts, core.ParseLin(frameLen).Sub(core.ParseLin(e))) {
+					return
+				}
+				bad = true
+				r.Violate(rule, name+": offset within the frame", x.Pos(), "GetValueOffset returns "+e+", computed from the property-header length the client wrote, without comparing it with the frame's length: a frame that announces a longer property header than it carries makes every caller slice or size beyond the frame (SHIFT, APPEND, PIPELINE, PUSH panic in the connection goroutine)", x.St.Trace)
+			},
+		})
+		ex.Run(fn, nil)
+		if ex.Imprecise != "" {
+			r.Fail("C13/R14 %s: %s", name, ex.Imprecise)
+			continue
+		}
+		n++
+		if !bad {
+			r.Hold(rule, name+": offset within the frame", p.Pos(fn.Pos()), "every computed offset is compared with the frame's length")
+		}
+	}
+	if n == 0 {
+		r.Fail("C13/R14: no GetValueOffset found")
+	}
 }
